@@ -557,7 +557,7 @@ class Polynomial:
                 if self.endpoints[i]:
                     weights[0] /= 2
                     weights[-1] /= 2
-                integrand *= np.expand_dims(
+                integrand = integrand * np.expand_dims(
                     np.sqrt(1 - compactCoord**2) * weights,
                     tuple(np.arange(i)) + tuple(np.arange(i + 1, self.rank)),
                 )
